@@ -178,8 +178,19 @@ def run_check(modname, tier, seed, replay=None, nproc=None, max_cases=None):
     nontriv = set()
     outcomes = {}
     transitions = 0
+    agg_states = agg_nontriv = 0
     for r in results:
         if r["status"] == "skip":
+            continue
+        agg = r.get("agg")
+        if agg:
+            # a worker-side aggregate of many distinct states (their keys are
+            # distinct by construction of the enumeration)
+            agg_states += agg["states"]
+            agg_nontriv += agg["nontrivial"]
+            transitions += agg["transitions"]
+            for o, n in agg["outcomes"].items():
+                outcomes[o] = outcomes.get(o, 0) + n
             continue
         keys.add(r["key"])
         if r.get("nontrivial"):
@@ -193,11 +204,11 @@ def run_check(modname, tier, seed, replay=None, nproc=None, max_cases=None):
         samples.append(desc(r["case"]) if desc else r["case"])
     top_outcomes = dict(sorted(outcomes.items(), key=lambda x: -x[1])[:25])
     coverage = {
-        "states": len(keys),
+        "states": len(keys) + agg_states,
         "transitions": transitions,
         "traces_validated_against_impl": transitions,
         "evaluations": n_generated,
-        "distinct_nontrivial": len(nontriv),
+        "distinct_nontrivial": len(nontriv) + agg_nontriv,
         "rule": mod.RULE,
         "samples": samples,
         "exhaustive": (not caps) and max_cases is None and not replay,
@@ -233,8 +244,8 @@ def run_check(modname, tier, seed, replay=None, nproc=None, max_cases=None):
         os.makedirs(EVIDENCE_DIR, exist_ok=True)
         with open(os.path.join(EVIDENCE_DIR, f"{pid}.json"), "w") as f:
             json.dump(ev, f, indent=1, default=str)
-    print(f"{pid} tier={tier} seed={seed} cases={n_generated} states={len(keys)} "
-          f"transitions={transitions} nontrivial={len(nontriv)} "
+    print(f"{pid} tier={tier} seed={seed} cases={n_generated} states={len(keys) + agg_states} "
+          f"transitions={transitions} nontrivial={len(nontriv) + agg_nontriv} "
           f"outcomes={len(outcomes)} caps={len(caps)} "
           f"known={sum(len(v) for v in known_hits.values())} "
           f"violations={len(new_viols)} wall={ev['wall_s']}s")
